@@ -197,3 +197,6 @@ def run(chk, args):
     if only is None or "utls" in only:
         from checks import c12_utls
         c12_utls.run_utls_part(chk, chk.tier == "quick")
+
+
+MANIFEST["note"] += " Extension part run with the check: UtlsRT (spec/UtlsRT: the uTLS round tripper's ALPN hint, parked connections and retry bound against real TLS servers on loopback, --only utls)."
